@@ -74,6 +74,23 @@ func render(info *types.Info, e ast.Expr, subst map[types.Object]string) string 
 		case *ast.StarExpr:
 			b.WriteString("*")
 			walk(v.X)
+		case *ast.SliceExpr:
+			walk(v.X)
+			b.WriteString("[")
+			if v.Low != nil {
+				walk(v.Low)
+			}
+			b.WriteString(":")
+			if v.High != nil {
+				walk(v.High)
+			}
+			if v.Slice3 {
+				b.WriteString(":")
+				if v.Max != nil {
+					walk(v.Max)
+				}
+			}
+			b.WriteString("]")
 		case *ast.TypeAssertExpr:
 			walk(v.X)
 			b.WriteString(".(")
